@@ -47,10 +47,11 @@ def with_estimates(case, nkeys=12):
     """Insert Q (estimate query) ops for the candidate and all possible residents before
     every insert (C13: decision predicted from the implementation's own estimates)."""
     name, lines = case
+    keys = sorted({int(l.split()[1]) for l in lines[1:] if l.split()[0] in ("I", "G", "C", "X")})
     out = [lines[0]]
     for l in lines[1:]:
         if l.startswith("I "):
-            for k in range(1, nkeys + 1):
+            for k in keys:
                 out.append(f"Q {k}")
         out.append(l)
     return (name, out)
